@@ -346,7 +346,17 @@ def g2_buffers():
     spliced = st.tuples(valid_code, valid_code, st.integers(0, 1 << 16), st.integers(0, 1 << 16)).map(
         lambda t: t[0][:t[2] % (len(t[0]) + 1)] + t[1][t[3] % (len(t[1]) + 1):])
     tok = st.lists(tokens(), min_size=1, max_size=8).map(b''.join)
-    buf = st.one_of(st.binary(max_size=64), tok, tok, mutated, mutated, spliced, valid_code)
+
+    # history shape: a well-formed item, and later in the same code a copy of it with one byte changed (what a decoder
+    # that remembers earlier work per opcode / per first unit would get wrong, e.g. `0e00 ... 0e01`)
+    def dup(t):
+        items, idx, pos, val, gap = t
+        it = bytearray(items[idx % len(items)])
+        it[pos % len(it)] ^= (val or 1)
+        return b''.join(items) + b''.join(gap) + bytes(it)
+    dup_mut = st.tuples(st.lists(valid_items(), min_size=1, max_size=5), st.integers(0, 15), st.integers(0, 1),
+                        st.integers(0, 255), st.lists(valid_items(), max_size=2)).map(dup)
+    buf = st.one_of(st.binary(max_size=64), tok, tok, mutated, mutated, spliced, valid_code, dup_mut)
 
     def with_size(t):
         b, mode, r = t
@@ -372,6 +382,7 @@ FIXED_G2 = [
     (bytes.fromhex('0004'), 1), (bytes.fromhex('0001'), 1), (bytes.fromhex('0003'), 1), (bytes.fromhex('00030100'), 2),
     (bytes.fromhex('1801ffff'), 5), (bytes.fromhex('1801ffff'), 2),
     (bytes.fromhex('0000120118010000000000000000'), 3),                 # const-wide crossing a smaller declared size
+    (bytes.fromhex('0e000e01'), 2), (bytes.fromhex('0e0000000e7f'), 3),  # well-formed 10x, then the same opcode with a non-zero high byte
 ]
 
 
